@@ -82,7 +82,10 @@ def r1(c):
 
 @rule('C08', 'R08.2', 'the Deny edge reaches no handler, no lookup, no lock; only the exception-01 reply')
 def r2(c):
-    b = hf(c)
+    import inline
+    # reply_with_error is a one-line wrapper of reply_with_error_generic(.., FunctionField::Exception(function), ..): the rule
+    # looks at handle_frame with it written out, so that using the wrapper or the generic function directly is the same
+    b = inline.expand(c.P, hf(c), {REPLY_ERR}) if c.P.has(REPLY_ERR) else hf(c)
     E = effects.get(c.P)
     auth = one(b.calls(IS_AUTH), 'call of is_authorized in handle_frame')
     oc = q.outcomes(b, auth)
@@ -103,10 +106,10 @@ def r2(c):
             continue
         n += 1
         eff = E.of_call(cs)
-        if cs.is_(REPLY_ERR):
+        if cs.is_(REPLY_ERR_G):
             replies.append(cs)
             continue
-        c.ob('deny-reach/%s' % cs.callee, not eff and not cs.is_(HGET, HITER, LOCK, GET_REPLY, EXECUTE, INTO_BC, WIRE_WRITE, REPLY_ERR_G),
+        c.ob('deny-reach/%s' % cs.callee, not eff and not cs.is_(HGET, HITER, LOCK, GET_REPLY, EXECUTE, INTO_BC, WIRE_WRITE),
              'call reachable from the Deny edge is effect-free', '%s has effects %s' % (cs.callee, sorted(eff)), cs.loc())
     c.floor('calls reachable from Deny examined', n, 2)
     rep = one(replies, 'reply_with_error reachable from the Deny edge')
@@ -114,7 +117,10 @@ def r2(c):
     ex = q.agg_variant_of(b, rep.args[4])
     c.ob('deny-reply/exception', ex == (EXC, 'IllegalFunction'), 'deny reply carries ExceptionCode::IllegalFunction (01)',
          'exception operand is %s' % (ex,), rep.loc())
-    f = q.sem(b, rep.args[3])
+    ff_ = q.sem(b, rep.args[3])
+    okx = ff_.kind == 'agg' and isinstance(ff_.extra, dict) and ff_.extra.get('variant') == 'Exception' and not ff_.proj and ff_.extra.get('a')
+    c.ob('deny-reply/exception-field', bool(okx), 'the function field of the deny reply is FunctionField::Exception(function) (function code | 0x80)', repr(ff_), rep.loc())
+    f = q.sem(b, ff_.extra['a'][0]) if okx else ff_
     parse = one(b.calls(PARSE), 'Request::parse')
     okf = f.kind == 'call' and f.cs.is_('rodbus::server::request::Request::get_function') and \
         q.sem(b, f.cs.args[0]).kind == 'call' and q.sem(b, f.cs.args[0]).cs is parse
